@@ -500,3 +500,39 @@ pub(crate) unsafe fn close(fd: i32) -> i32 {
 pub(crate) fn live_maps() -> usize {
     unsafe { E.maps[0].2 as usize + E.maps[1].2 as usize + E.maps[2].2 as usize + E.maps[3].2 as usize }
 }
+
+/// Stub for `std::hash::RandomState::new` (the real one asks the OS for random keys): fixed keys.  Only affects the
+/// iteration order / hashing of the watch table, which no obligation depends on.
+pub(crate) fn fixed_random_state() -> std::hash::RandomState {
+    unsafe { std::mem::transmute::<(u64, u64), std::hash::RandomState>((0x0123_4567_89ab_cdef, 0xfedc_ba98_7654_3210)) }
+}
+
+// ---------------------------------------------------------------- waker call stubs
+// CBMC resolves a call through a raw function pointer (RawWakerVTable entries are `unsafe fn(*const ())`) to EVERY
+// address-taken function of a compatible C type — which includes every `drop_in_place::<T>` stored in any trait-object
+// vtable in the cone (io::Error's boxed payload, ...), a10's erased `drop_state`, etc.  One waker call can therefore
+// drag in (recursively) unrelated drop glue and make symbolic execution explode.  The harness wakers all use the
+// vtable above, so the four Waker entry points are replaced (under verification only; natively the real vtable
+// functions run and do the same) by direct, function-pointer-free equivalents.  Marker in harness files:
+// a line `//@waker_stubs` above `#[kani::proof]` is expanded to the four #[kani::stub] attributes at injection time.
+pub(crate) fn stub_waker_wake(w: Waker) {
+    let id = w.data() as usize;
+    unsafe {
+        E.wakes[id % NWAKERS] += 1;
+        E.waker_drops += 1;
+    }
+    std::mem::forget(w);
+}
+pub(crate) fn stub_waker_wake_by_ref(w: &Waker) {
+    let id = w.data() as usize;
+    unsafe { E.wakes[id % NWAKERS] += 1 };
+}
+pub(crate) fn stub_waker_drop(_w: &mut Waker) {
+    unsafe { E.waker_drops += 1 };
+}
+pub(crate) fn stub_waker_clone(w: &Waker) -> Waker {
+    unsafe {
+        E.waker_clones += 1;
+        Waker::new(w.data(), w.vtable())
+    }
+}
